@@ -99,6 +99,9 @@ pub struct Plan {
     /// send attempts (1.. = the rpcs) that fail although the request reached the server, which
     /// answers it like any other: the session goes on being used
     pub fail_after_write: Vec<usize>,
+    /// the server echoes message-ids with their first digit written as a character reference
+    /// (`message-id="&#x31;2"` is the attribute value "12")
+    pub charref_ids: bool,
 }
 
 impl Plan {
@@ -109,7 +112,7 @@ impl Plan {
         json!({
             "first": self.first.iter().map(|p| format!("{p:?}")).collect::<Vec<_>>(),
             "late": self.late, "block_sends": self.block_sends, "block_after_write": self.block_after_write, "yield_between": self.yield_between,
-            "hello_preloaded": self.hello_preloaded, "extra": self.extra.len(), "drops": self.drops, "reply_pad": self.reply_pad, "fail_after_write": self.fail_after_write,
+            "hello_preloaded": self.hello_preloaded, "extra": self.extra.len(), "drops": self.drops, "reply_pad": self.reply_pad, "fail_after_write": self.fail_after_write, "charref_ids": self.charref_ids,
         })
     }
 }
@@ -371,7 +374,8 @@ pub fn run(
                         let i = ex.ids.len();
                         let tag = format!("t-{case_tag}-{i}-{id}");
                         let pad = if plan.reply_pad.is_empty() { 0 } else { plan.reply_pad[i % plan.reply_pad.len()] };
-                        replies.push(Some(if pad == 0 { memwire::data_reply(&id, &tag) } else { memwire::data_reply_padded(&id, &tag, pad) }));
+                        let echoed = if plan.charref_ids { format!("&#x{:x};{}", id.as_bytes()[0], &id[1..]) } else { id.clone() };
+                        replies.push(Some(if pad == 0 { memwire::data_reply(&echoed, &tag) } else { memwire::data_reply_padded(&echoed, &tag, pad) }));
                         ex.ids.push(id);
                         ex.tags.push(tag);
                     }
